@@ -26,7 +26,8 @@ from praatio import audio
 RULE = ("widths {1,2,4} x rates {8, 64, 8000, 16000, 44100} x 0..400 samples (random, ramps, constant, always with the extremes "
         "-2^(8w-1), 2^(8w-1)-1, 0, -1 of the width mixed in) x times on sample boundaries, off them, exactly half-way (dyadic "
         "k/2^m so that t*rate is exact), decimals with 1-4 digits and thirds (oracle only when t*rate is inexact), 0 and the "
-        "duration, a few outside [0,duration] (model correspondence only). operations: _getIndexAtTime, getFrames, getSamples, "
+        "duration, and times OUTSIDE [0,duration] (negative, just outside, far beyond the end: judged by the oracle as the "
+        "nearest sample boundary of the recording). operations: _getIndexAtTime, getFrames, getSamples, "
         "duration, convertToBytes/convertFromBytes (in and out of range, whole and ragged byte strings), histories of 1..6 "
         "insert/deleteSegment/replaceSegment/concatenate/getSubwav (state compared after every step), insert-then-delete of "
         "the same stretch, Wav.save -> Wav.open and QueryWav.getSamples / readFramesAtTime on real temp files, plus unit "
@@ -41,7 +42,10 @@ ASSUMPTIONS = ["mono recordings, sample widths 1, 2, 4, frame rate a positive in
                "|t*rate| < 2^53); other times (0.3, 1/3, k/8000 ...) are checked by the oracle only",
                "where the exact product t*rate lies within one binary64 rounding error (|x|*2^-52) of a half-sample point, or exactly "
                "on it, the oracle accepts either neighbouring sample index ('the sample indices nearest to the requested times')",
-               "times are taken in [0, duration] for the oracle; start <= end for two-time operations"]
+               "times are arbitrary (negative, beyond the end): 'the sample indices nearest to the requested times' is read as the "
+               "nearest of the recording's sample boundaries 0..n; a two-time operation with start > end must raise ArgumentError and leave "
+               "the recording unchanged (the bare function readFramesAtTime, which has no such check, is compared with the model only); the insert-then-delete "
+               "clause is judged for insertion times in [0, duration]"]
 
 WIDTHS = [1, 2, 4]
 RATES = [8, 64, 8000, 16000, 44100, 48000, 7, 3]
@@ -140,6 +144,11 @@ def nearest_x(x):
     return [k for k in (fl - 1, fl, fl + 1, fl + 2) if abs(k - x) <= HALF + tol]
 
 
+def nearest_in(t, rate, n):
+    """the acceptable sample boundaries of a recording of n samples for time t: the nearest index, clamped into [0, n]"""
+    return sorted(set(min(max(k, 0), n) for k in nearest(t, rate)))
+
+
 def is_half(x):
     return x == math.floor(x) + 0.5
 
@@ -199,7 +208,7 @@ def encode(c, enc):
         return f"a_unpack {c['w']} {hx(c['hex'])}"
     wv = f"{c['w']} {c['rate']} {hx(c['hex'])}"
     if op == "index":
-        return f"a_index {c['w']} {c['rate']} {q(c['t'])}"
+        return f"a_index {wv} {q(c['t'])}"
     if op == "getframes":
         return f"a_getframes {wv} {q(c['t0'])} {q(c['t1'])}"
     if op == "getsamples":
@@ -241,24 +250,20 @@ def impl(c):
     if op == "edits":
         def run():
             wv = mkwav(c)
-            states, untouched, derived = [], True, []
+            states, untouched, err, after, derived = [], True, None, None, []
             for e in c["edits"]:
                 k = e[0]
-                if k == "ins":
-                    wv.insert(e[1], bytes.fromhex(e[2]))
-                elif k == "del":
-                    wv.deleteSegment(e[1], e[2])
-                elif k == "rep":
-                    wv.replaceSegment(e[1], e[2], bytes.fromhex(e[3]))
-                elif k == "cat":
-                    wv.concatenate(bytes.fromhex(e[1]))
-                elif k == "sub":
-                    before = bytes(wv.frames)
-                    sub = wv.getSubwav(e[1], e[2])
-                    untouched = untouched and wv.frames == before and (sub.sampleWidth, sub.frameRate) == (wv.sampleWidth, wv.frameRate)
+                before_step = bytes(wv.frames)
+                try:
+                    step_edit(wv, e)
+                except Exception as ex:      # the history stops at the first edit that raises
+                    err = type(ex).__name__
+                    after = wv.frames.hex()
+                    break
+                if k == "sub":
+                    sub = step_edit.last
+                    untouched = untouched and wv.frames == before_step and (sub.sampleWidth, sub.frameRate) == (wv.sampleWidth, wv.frameRate)
                     wv = sub
-                else:
-                    raise KeyError(k)
                 states.append(wv.frames.hex())
                 # what the SAME living object reports about itself after the edit (round 3, C16-v1 / C18-v1: a frame
                 # count or an unpacked-sample cache that an edit forgets to refresh)
@@ -266,7 +271,7 @@ def impl(c):
                     derived.append([wv.duration, list(wv.getSamples(0.0, wv.duration)) == list(audio.convertFromBytes(wv.frames, wv.sampleWidth))])
                 else:
                     derived.append(None)
-            return {"states": states, "untouched": untouched, "derived": derived}
+            return {"states": states, "untouched": untouched, "err": err, "after": after, "derived": derived}
         return T.call(run)
     if op == "invdel":
         def run():
@@ -313,6 +318,23 @@ def impl(c):
     raise KeyError(op)
 
 
+def step_edit(wv, e):
+    """one edit of a history on the real object; getSubwav's result is left in step_edit.last"""
+    k = e[0]
+    if k == "ins":
+        wv.insert(e[1], bytes.fromhex(e[2]))
+    elif k == "del":
+        wv.deleteSegment(e[1], e[2])
+    elif k == "rep":
+        wv.replaceSegment(e[1], e[2], bytes.fromhex(e[3]))
+    elif k == "cat":
+        wv.concatenate(bytes.fromhex(e[1]))
+    elif k == "sub":
+        step_edit.last = wv.getSubwav(e[1], e[2])
+    else:
+        raise KeyError(k)
+
+
 def render(c, r, enc):
     op = c["op"]
     if not has_model(c):
@@ -332,7 +354,7 @@ def render(c, r, enc):
         from proto import f2bits
         return f"ok {len(c['hex']) // 2} {c['rate'] * c['w']} {f2bits(v)}"
     if op == "edits":
-        return "ok " + " ".join(hx(h) for h in v["states"])
+        return "ok " + " ".join([hx(h) for h in v["states"]] + (["err", v["err"]] if v["err"] else []))
     if op == "invdel":
         return "ok " + " ".join(hx(h) for h in v)
     if op == "saveopen":
@@ -356,15 +378,12 @@ def expect_edit(S, e, w, rate):
     if k == "cat":
         G = decode(bytes.fromhex(e[1]), w)
         return None if G is None else [S + G]
-    ts = [x for x in e[1:] if isinstance(x, float)]
-    if not all(in_domain(t, n, rate) for t in ts):
-        return None
     if k == "ins":
         G = decode(bytes.fromhex(e[2]), w)
-        return None if G is None else [S[:i] + G + S[i:] for i in nearest(e[1], rate)]
+        return None if G is None else [S[:i] + G + S[i:] for i in nearest_in(e[1], rate, n)]
     if Fraction(e[1]) > Fraction(e[2]):
-        return None
-    pairs = [(i, j) for i in nearest(e[1], rate) for j in nearest(e[2], rate) if i <= j]
+        return "reject"
+    pairs = [(i, j) for i in nearest_in(e[1], rate, n) for j in nearest_in(e[2], rate, n) if i <= j]
     if k == "del":
         return [S[:i] + S[j:] for i, j in pairs]
     if k == "rep":
@@ -384,14 +403,15 @@ def oracle_range(c, got, sig):
     n = len(S)
     t0 = 0.0 if c["t0"] is None else c["t0"]
     t1 = c["t1"]
-    if not in_domain(t0, n, rate) or (t1 is not None and (not in_domain(t1, n, rate) or Fraction(t1) < Fraction(t0))):
+    if t1 is not None and Fraction(t1) < Fraction(t0):
         return None
     sig = dict(sig, op="readFramesAtTime", via=c["op"])
     if got is None:
         return Failure(dict(sig, clause="whole-samples"), "the frames returned are not a whole number of samples")
     x0 = Fraction(t0) * rate
     x1 = Fraction(n) if t1 is None else Fraction(t1) * rate
-    I, J = nearest_x(x0), nearest_x(x1)
+    I = sorted(set(min(max(k, 0), n) for k in nearest_x(x0)))
+    J = sorted(set(min(max(k, 0), n) for k in nearest_x(x1)))
     if any(got == S[i:j] for i in I for j in J if i <= j):
         return None
     return Failure(dict(sig, clause="range"), f"[{c['t0']},{c['t1']}] at rate {rate}: samples {got[:8]}… ({len(got)}) are not S[{I}:{J}]")
@@ -438,26 +458,26 @@ def oracle(c, r):
         return None  # ragged recordings: correspondence only
     n = len(S)
     if op == "index":
-        if not in_domain(c["t"], n, rate):
-            return None
         if r[0] == "err":
             return Failure(dict(sig, clause="no-error", exc=r[1]), f"_getIndexAtTime raised {r[1]}")
         if r[1] % w:
             return Failure(dict(sig, clause="aligned"), f"index {r[1]} is not a multiple of the sample width {w} (t={c['t']}, rate={rate})")
-        if r[1] // w not in nearest(c["t"], rate):
+        if r[1] // w not in nearest_in(c["t"], rate, n):
             return Failure(dict(sig, clause="nearest"), f"index {r[1]}/{w} but t*rate = {float(Fraction(c['t']) * rate)}")
         return None
     if op in ("getframes", "getsamples"):
         t0, t1 = c["t0"], c["t1"]
-        if not (in_domain(t0, n, rate) and in_domain(t1, n, rate) and Fraction(t0) <= Fraction(t1)):
+        if not Fraction(t0) <= Fraction(t1):
+            if tuple(r[:2]) != ("err", "ArgumentError"):
+                return Failure(dict(sig, clause="reversed-rejected"), f"{op}({t0},{t1}): a time range that ends before it starts gave {r[0]} {str(r[1])[:40]}, not ArgumentError")
             return None
         if r[0] == "err":
             return Failure(dict(sig, clause="no-error", exc=r[1]), f"{op}({t0},{t1}) raised {r[1]} (width {w}, rate {rate})")
         got = decode(bytes.fromhex(r[1]), w) if op == "getframes" else r[1]
         if got is None:
             return Failure(dict(sig, clause="whole-samples"), f"getFrames({t0},{t1}) returned a ragged byte string")
-        if not any(got == S[i:j] for i in nearest(t0, rate) for j in nearest(t1, rate) if i <= j):
-            return Failure(dict(sig, clause="range"), f"{op}({t0},{t1}) at rate {rate}: {got[:8]}… ({len(got)}) is not S[{nearest(t0, rate)}:{nearest(t1, rate)}]")
+        if not any(got == S[i:j] for i in nearest_in(t0, rate, n) for j in nearest_in(t1, rate, n) if i <= j):
+            return Failure(dict(sig, clause="range"), f"{op}({t0},{t1}) at rate {rate}: {got[:8]}… ({len(got)}) is not S[{nearest_in(t0, rate, n)}:{nearest_in(t1, rate, n)}]")
         return None
     if op == "duration":
         if r[0] == "err":
@@ -467,15 +487,30 @@ def oracle(c, r):
         return None
     if op == "edits":
         if r[0] == "err":
-            return Failure(dict(sig, clause="no-error", exc=r[1]), f"edit history raised {r[1]}")
+            return Failure(dict(sig, clause="no-error", exc=r[1]), f"edit history: harness-level error {r[1]}")
         if not r[1]["untouched"]:
             return Failure(dict(sig, clause="getSubwav-leaves-source"), "getSubwav changed its receiver or the parameters")
         cur = S
-        for step, (e, h) in enumerate(zip(c["edits"], r[1]["states"])):
+        v = r[1]
+        for step, e in enumerate(c["edits"]):
             if cur is None:
                 return None
-            got = decode(bytes.fromhex(h), w)
             ok = expect_edit(cur, e, w, rate)
+            if step >= len(v["states"]):
+                # the history stopped here with an exception: only a reversed time range may do that, with an ArgumentError,
+                # and the recording must be what it was before the call
+                if ok != "reject":
+                    return Failure(dict(sig, edit=e[0], clause="no-error", exc=v["err"]), f"step {step} {e[:3] if e[0] != 'cat' else e[0]} raised {v['err']}")
+                if v["err"] != "ArgumentError":
+                    return Failure(dict(sig, edit=e[0], clause="reversed-rejected", exc=v["err"]), f"step {step} {e[:3]}: reversed range raised {v['err']}, not ArgumentError")
+                if decode(bytes.fromhex(v["after"]), w) != cur:
+                    return Failure(dict(sig, edit=e[0], clause="rejected-unchanged"), f"step {step} {e[:3]}: the rejected call changed the recording")
+                return None
+            h = v["states"][step]
+            got = decode(bytes.fromhex(h), w)
+            if ok == "reject":
+                return Failure(dict(sig, edit=e[0], clause="reversed-rejected"),
+                               f"step {step} {e[:3]} at rate {rate}: a time range that ends before it starts was accepted ({len(cur)} -> {len(got) if got is not None else '?'} samples)")
             if ok is not None:
                 if got is None:
                     return Failure(dict(sig, edit=e[0], clause="whole-samples"), f"step {step} {e[0]}: ragged byte string (width {w})")
@@ -523,14 +558,22 @@ def oracle(c, r):
     if op == "readat":
         if r[0] == "err":
             t0, t1 = c["t0"], c["t1"]
-            if in_domain(t0, n, rate) and in_domain(t1, n, rate) and Fraction(t0) <= Fraction(t1):
+            if Fraction(t0) <= Fraction(t1):
                 return Failure(dict(sig, clause="no-error", exc=r[1]), f"readFramesAtTime({t0},{t1}) raised {r[1]}")
             return None
         return oracle_range(c, decode(bytes.fromhex(r[1]), w), sig)
     if op == "query":
+        t0 = 0.0 if c["t0"] is None else c["t0"]
+        t1 = Fraction(n, rate) if c["t1"] is None else Fraction(c["t1"])
+        if Fraction(t0) > t1 and c["t1"] is not None:
+            # (with endTime=None the end is the float duration n/rate, which the oracle does not second-guess)
+            if tuple(r[:2]) != ("err", "ArgumentError"):
+                return Failure(dict(sig, clause="reversed-rejected"), f"QueryWav.getSamples({c['t0']},{c['t1']}): a reversed range gave {r[0]}, not ArgumentError")
+            return None
         if r[0] == "err":
-            t0 = 0.0 if c["t0"] is None else c["t0"]
-            if in_domain(t0, n, rate) and (c["t1"] is None or (in_domain(c["t1"], n, rate) and Fraction(t0) <= Fraction(c["t1"]))):
+            if c["t1"] is None and Fraction(t0) > t1 - Fraction(1, 2 ** 40) and r[1] == "ArgumentError":
+                return None
+            if c["t1"] is None or Fraction(t0) <= Fraction(c["t1"]):
                 return Failure(dict(sig, clause="no-error", exc=r[1]), f"QueryWav.getSamples({c['t0']},{c['t1']}) raised {r[1]}")
             return None
         v = r[1]
@@ -559,7 +602,14 @@ def tags(c, r):
         if op in ("readat", "query"):
             for t in (c["t0"], c["t1"]):
                 out.append("time:" + ("none" if t is None else kind_of(t, c["rate"])))
+    if op in ("getframes", "getsamples", "readat", "query") and c.get("t0") is not None and c.get("t1") is not None \
+            and Fraction(c["t0"]) > Fraction(c["t1"]):
+        out.append("window:reversed")
+    if any(isinstance(t, float) and t < 0 for t in times_of(c) + [c.get("t0"), c.get("t1")]):
+        out.append("time:negative")
     if op == "edits":
+        if r[0] == "ok" and r[1].get("err"):
+            out.append("history:stopped:" + r[1]["err"])
         out.append(f"history:{len(c['edits'])}")
         out += ["edit:" + e[0] for e in c["edits"]]
     if op == "invdel" and r[0] == "ok":
@@ -615,7 +665,34 @@ def corpus():
     yield {"op": "getsamples", "w": 1, "rate": 8, "hex": ramp(9, 1), "t0": 0.0625, "t1": 0.203125}
     yield {"op": "query", "w": 1, "rate": 8, "hex": ramp(9, 1), "t0": 0.3125, "t1": None}
     yield {"op": "query", "w": 2, "rate": 44100, "hex": "0080ff7fff7fff7fff7fff7fff7fff7fff7f0000ff7fff7f", "t0": 0.00010204081632653062, "t1": None}
-    # wave.Error on a position beyond the file; a reversed window is empty
+    # C16-2 (fixed, 300c9d2): times outside the recording.  A negative time became a negative Python slice bound (counted from
+    # the END of the frames): getSamples(-0.5, 0.5) was empty, deleteSegment(-0.5, 0.25) returned 26 samples for 16,
+    # insert(-0.25, x) put x before the last two samples; QueryWav raised wave.Error for the same windows and for a start
+    # beyond the end (where Wav returns nothing)
+    for w in WIDTHS:
+        yield {"op": "getsamples", "w": w, "rate": 8, "hex": ramp(16, w), "t0": -0.5, "t1": 0.5}
+        yield {"op": "getframes", "w": w, "rate": 8, "hex": ramp(16, w), "t0": 1.5, "t1": 9.0}
+        yield {"op": "edits", "w": w, "rate": 8, "hex": ramp(16, w), "edits": [["del", -0.5, 0.25]]}
+        yield {"op": "edits", "w": w, "rate": 8, "hex": ramp(16, w), "edits": [["ins", -0.25, ramp(1, w, 77)]]}
+        yield {"op": "edits", "w": w, "rate": 8, "hex": ramp(16, w), "edits": [["rep", -1.0, 0.25, ramp(2, w, 77)], ["sub", -0.5, 99.0], ["ins", 50.0, ramp(1, w, 55)]]}
+        yield {"op": "query", "w": w, "rate": 8, "hex": ramp(16, w), "t0": -0.5, "t1": 0.5}
+        yield {"op": "query", "w": w, "rate": 8, "hex": ramp(16, w), "t0": 3.0, "t1": 9.0}
+        yield {"op": "readat", "w": w, "rate": 8, "hex": ramp(16, w), "t0": -0.5, "t1": 0.5}
+        yield {"op": "index", "w": w, "rate": 8, "hex": ramp(16, w), "t": -0.5}
+        yield {"op": "index", "w": w, "rate": 8, "hex": ramp(16, w), "t": 2.5}
+    # C16-3 (fixed, 0a07868): a time range that ends before it starts.  deleteSegment(0.5, 0.25) returned 18 samples for 16
+    # (frames[:i] + frames[j:] with i > j duplicates the samples in between), replaceSegment likewise; getSamples(0.5, -0.25)
+    # returned 10 samples from Wav and () from QueryWav.  All raise ArgumentError now, before anything is changed
+    for w in WIDTHS:
+        yield {"op": "edits", "w": w, "rate": 8, "hex": ramp(16, w), "edits": [["del", 0.5, 0.25]]}
+        yield {"op": "edits", "w": w, "rate": 8, "hex": ramp(16, w), "edits": [["del", 0.25, 0.5], ["rep", 0.5, 0.25, ramp(1, w, 77)], ["cat", ramp(1, w, 9)]]}
+        yield {"op": "edits", "w": w, "rate": 8, "hex": ramp(16, w), "edits": [["sub", 1.5, 0.25]]}
+        yield {"op": "getsamples", "w": w, "rate": 8, "hex": ramp(16, w), "t0": 0.5, "t1": -0.25}
+        yield {"op": "getframes", "w": w, "rate": 8, "hex": ramp(16, w), "t0": 0.5, "t1": 0.25}
+        yield {"op": "query", "w": w, "rate": 8, "hex": ramp(16, w), "t0": 0.5, "t1": -0.25}
+        yield {"op": "query", "w": w, "rate": 8, "hex": ramp(16, w), "t0": 0.5, "t1": 0.25}
+        yield {"op": "query", "w": w, "rate": 8, "hex": ramp(16, w), "t0": 5.0, "t1": None}
+    # a position beyond the file reads nothing (was wave.Error); the bare readFramesAtTime reads nothing for a reversed window
     yield {"op": "readat", "w": 1, "rate": 8, "hex": ramp(9, 1), "t0": 2.0, "t1": 3.0}
     yield {"op": "readat", "w": 1, "rate": 8, "hex": ramp(9, 1), "t0": 0.5, "t1": 0.25}
     yield {"op": "query", "w": 2, "rate": 8000, "hex": ramp(40, 2), "t0": None, "t1": None}
@@ -668,13 +745,13 @@ def gen_time(rnd, rate, n, kind=None, exact=False):
     """a float time for a recording of n samples at `rate`; exact=True: only times whose product with the rate is
     exact in binary64 (so that the case is compared with the model as well as with the oracle)"""
     if exact and rate not in (8, 64) and kind is None:
-        kind = rnd.choice(["dyad"] * 6 + ["halfd", "halfd", "zero", "out"])
+        kind = rnd.choice(["dyad"] * 6 + ["halfd", "halfd", "zero", "out", "out", "neg"])
         if kind == "halfd":
             ks = [k for k in (62, 187, 312) if k < n]
             if ks:
                 return (2 * rnd.choice(ks) + 1) / (2 * rate)
             kind = "dyad"
-    kind = kind or rnd.choice(["on", "on", "off", "off", "half", "half", "dyad", "dec", "third", "zero", "end", "out"])
+    kind = kind or rnd.choice(["on", "on", "off", "off", "half", "half", "dyad", "dec", "third", "zero", "end", "out", "out", "neg"])
     k = rnd.randint(0, n)
     if kind == "on":
         return k / rate
@@ -698,7 +775,13 @@ def gen_time(rnd, rate, n, kind=None, exact=False):
         return 0.0
     if kind == "end":
         return n / rate
-    return rnd.choice([-1 / rate, -0.5, (n + 1) / rate, (n + 3.5) / rate, n / rate + 1.0])
+    if kind == "neg":
+        j = rnd.randint(0, n + 2)
+        return rnd.choice([-j / rate, -(2 * j + 1) / (2 * rate), -0.25 / rate, -0.75 / rate, -0.3, -1.0, -float(rnd.randint(2, 10 ** 6)),
+                           -j / 8.0, -1e-9])
+    j = rnd.randint(0, n + 2)
+    return rnd.choice([-1 / rate, -0.5, (n + 1) / rate, (n + 3.5) / rate, n / rate + 1.0, (n + j) / rate, (2 * n + j + 0.5) / rate,
+                       n / rate + j / 8.0, float(rnd.randint(2, 10 ** 6)) + n / rate, 1e9, (n + 0.25) / rate, (n + 0.75) / rate])
 
 
 def gen_window(rnd, rate, n, exact=False):
